@@ -314,7 +314,7 @@ func (f *Frame) callContract(in ssa.Instruction, ct *Contract, callee *ssa.Funct
 		if f.contract != nil && len(f.contract.Props) > 0 && len(rq.Props) == 0 {
 			props = unionProps(props, f.contract.Props)
 		}
-		if e.primary() {
+		if tc := f.topFrame().contract; e.primary() && !(tc != nil && tc.TrustCalls) {
 			nm := fmt.Sprintf("%s:call:%s:requires:%s", fname, ct.Name, clauseName(rq))
 			if f.parent != nil {
 				// inlined (e.g. deferred closure): name the site of the top-level function it runs at
